@@ -21,7 +21,7 @@ use fmt::F;
 use real::{Mem, Real};
 
 fn real_layer(ctx: &mut Ctx, level: usize) {
-    let mut rl = Real::build(ctx, level >= 1);
+    let mut rl = Real::build(ctx, true);
     let mut rng = ctx.rng("c15:real");
     let nrel = rl.rels.len();
 
@@ -124,6 +124,47 @@ fn real_layer(ctx: &mut Ctx, level: usize) {
                     continue;
                 }
                 rl.batch_forced(ctx, "batch:forced-r", ms, *r);
+            }
+        }
+    }
+
+    // ---- π-shift families: members of one family have proportional defects a·(τ−x₃)·G, so
+    // the exact coefficients r^(n-1-i) of the loop are visible in the verdict at a forced r
+    for rep in 0..reps * 2 {
+        let base = rl.honest(rep % nrel, rep / nrel);
+        for n in 2..=6usize {
+            let r = if (rep + n) % 3 == 0 { F::from((rep + 2) as u64) } else { F::random(&mut rng) };
+            let mut a: Vec<F> = (0..n - 1).map(|_| if rng.gen_bool(0.3) { F::ZERO } else { F::from(rng.gen_range(1..9u64)) }).collect();
+            if a.iter().all(|x| *x == F::ZERO) {
+                a[0] = F::ONE;
+            }
+            // a_{n-1} closes the combination: Σ a_i r^(n-1-i) = 0
+            let last = -a.iter().fold(F::ZERO, |acc, x| acc * r + x) * r;
+            a.push(last);
+            let ms: Vec<Mem> = a.iter().map(|x| rl.shifted(&base, *x)).collect();
+            rl.batch_forced(ctx, "batch:forced-r:pi-shift-root", &ms, r);
+            rl.batch_forced(ctx, "batch:forced-r:pi-shift-off-root", &ms, r + F::ONE);
+            // with the honest hash the same batch must be rejected
+            rl.batch(ctx, "batch:pi-shift-family", &ms);
+        }
+        // complementary pair: defects δ and −δ (a plain sum of the guards would accept)
+        let pair = vec![rl.shifted(&base, F::ONE), rl.shifted(&base, -F::ONE)];
+        rl.batch(ctx, "batch:complementary-pair", &pair);
+        let v = rl.honest((rep + 1) % nrel, rep);
+        let trio = vec![rl.shifted(&base, F::from(2)), v.clone(), rl.shifted(&base, -F::from(2))];
+        rl.batch(ctx, "batch:complementary-pair", &trio);
+        // adaptive attacks on the dependence of r on each member
+        for n in [2usize, 3, 4, 6] {
+            if level == 0 && n == 6 && rep > 0 {
+                continue;
+            }
+            let fill: Vec<Mem> = (0..n).map(|k| rl.honest((k + rep) % nrel, k)).collect();
+            for i in 0..n {
+                for j in 0..n {
+                    if i != j && (level > 0 || (i + j + rep) % 2 == 1 || n <= 3) {
+                        rl.adaptive_attack(ctx, &fill, &base, i, j);
+                    }
+                }
             }
         }
     }
